@@ -116,6 +116,8 @@ func (c ConditionFunction) Evaluate(a interface{}, b interface{}) (bool, error) 
 		return !valuesEqual(a, b, x, y), nil
 	case ConditionIncludes:
 		switch x.Kind() {
+		case reflect.Ptr:
+			return ptrIncludes(x, y), nil
 		case reflect.Slice:
 			return sliceContains(x, y), nil
 		case reflect.Map:
@@ -127,6 +129,8 @@ func (c ConditionFunction) Evaluate(a interface{}, b interface{}) (bool, error) 
 		}
 	case ConditionExcludes:
 		switch x.Kind() {
+		case reflect.Ptr:
+			return !ptrIncludes(x, y) || y.IsNil(), nil
 		case reflect.Slice:
 			return sliceExcludes(x, y), nil
 		case reflect.Map:
@@ -193,6 +197,15 @@ func valuesEqual(a, b interface{}, x, y reflect.Value) bool {
 		return x.Len() == y.Len() && mapContains(x, y)
 	}
 	return reflect.DeepEqual(a, b)
+}
+
+// ptrIncludes treats optional values as sets with zero or one element and
+// returns true if the element of y, if any, is the element of x
+func ptrIncludes(x, y reflect.Value) bool {
+	if y.IsNil() {
+		return true
+	}
+	return !x.IsNil() && reflect.DeepEqual(x.Elem().Interface(), y.Elem().Interface())
 }
 
 func sliceContains(x, y reflect.Value) bool {
